@@ -3,7 +3,7 @@
 #include "vrt.h"
 #define CF_MAXFILES 6
 #define CF_MAXHDU 14
-#define CF_MAXCARDS 48
+#define CF_MAXCARDS 128
 #define CF_MAXDIM 10
 enum { CF_TBYTE = 11, CF_TSTRING = 16, CF_TINT = 31, CF_TUINT = 30, CF_TLONG = 41, CF_TFLOAT = 42, CF_TDOUBLE = 82, CF_FLOAT_IMG = -32, CF_DOUBLE_IMG = -64, CF_IMAGE_HDU = 0,
        CF_FILE_NOT_OPENED = 104, CF_FILE_NOT_CREATED = 105, CF_WRITE_ERROR = 106, CF_END_OF_FILE = 107, CF_READ_ERROR = 108, CF_KEY_NO_EXIST = 202, CF_BAD_HDU_NUM = 301, CF_BAD_DIMEN = 320, CF_BAD_INTKEY = 403, CF_BAD_DOUBLEKEY = 409, CF_BAD_DATATYPE = 410, CF_BAD_PIX_NUM = 321, CF_NOT_IMAGE = 233, CF_BAD_NAXIS = 212 };
